@@ -49,6 +49,21 @@ def run(tier, seed):
                 kinds[e["k"] + ":" + e["s"]] = kinds.get(e["k"] + ":" + e["s"], 0) + 1
     report["layers"]["X05"] = dict(runs=len(rows), states=res.distinct, messages_seen=kinds,
                                    deviations={k: v[:5] for k, v in groups.items()})
+    # X14: the chart command terminates for every chart duration (it samples the profile at duration/159 steps)
+    import subprocess
+    chart = {}
+    for dur in ("10m", "1s", "0s", "-1s", "100ns"):
+        case = json.dumps({"args": ["chart", "constant", "-r", "5/s", "--chart-duration", dur], "yaml": ""})
+        try:
+            p = subprocess.run([binary, "c14cli", "-x", "case=" + case], cwd=vlib.HARNESS, env=vlib.env_with(), stdout=subprocess.PIPE,
+                               stderr=subprocess.STDOUT, text=True, timeout=30)
+            out = p.stdout
+        except subprocess.TimeoutExpired:
+            out = "did not return"
+        chart[dur] = "hangs" if "did not return" in out else "returns"
+        if chart[dur] == "hangs":
+            groups.setdefault("X14:chart-does-not-terminate(--chart-duration %s)" % dur, []).append("chart constant")
+    report["layers"]["X14"] = chart
     for k, v in sorted(groups.items()):
         print("EXTENDED-DEVIATION %s in %d run(s), e.g. %s" % (k, len(v), v[:3]))
         rc = 1
